@@ -27,6 +27,7 @@ type histOpts struct {
 	overrides   bool
 	settings    bool
 	migration   bool
+	neverReady  bool // in some worlds the pods of template A never become Ready
 	someOverrides bool // node override annotations (also malformed ones) in a third of the worlds
 	stratEdits  bool // user edits of canary replicas / strategy although not a convergence profile
 }
@@ -126,6 +127,11 @@ func genHistory(r *rand.Rand, tier string, o histOpts) *World {
 	if o.overrides {
 		w.Extra["overrides"] = "1"
 	}
+	if o.twoEDS && len(w.EDS) == 2 && chance(r, 0.1) {
+		// a name that is legal for the object but not as a label value: its replica sets cannot be
+		// created, and it must not pick up anybody else's instead
+		w.EDS[1].Name = "bar-" + strings.Repeat("x", 64)
+	}
 	if o.twoEDS && len(w.EDS) == 2 && w.EDS[0].NS != w.EDS[1].NS && chance(r, 0.4) {
 		// the template names a namespace (the one of the other ExtendedDaemonSet): pods belong to the
 		// namespace of their own replica set all the same
@@ -176,6 +182,10 @@ func genHistory(r *rand.Rand, tier string, o histOpts) *World {
 	}
 	cfg.StrategyEdits = (o.c02 || o.stratEdits) && chance(r, 0.3)
 	cfg.Evictions = chance(r, 0.3)
+	if o.neverReady && chance(r, 0.15) {
+		// the first template never becomes Ready (a broken release); whatever replaces it does
+		w.Extra["neverReady"] = "A"
+	}
 	if o.someOverrides && chance(r, 0.3) {
 		w.Extra["overrides"] = "1"
 		w.Extra["malformed"] = "1"
@@ -211,7 +221,7 @@ func histProfile(name string, decide []string, quick, thorough int, o histOpts, 
 
 func init() {
 	register(histProfile("C12", []string{"C12"}, 1200, 50000, histOpts{maxNodes: 4, pCanary: 0.4, fancy: []float64{0, 0.3}, faults: true, twoEDS: true, migration: true}, "C12.foreign-listed", "C12.write"))
-	register(histProfile("C02", []string{"C02"}, 800, 40000, histOpts{maxNodes: 6, pCanary: 0.5, fancy: []float64{0, 0.3, 0.7}, faults: true, sane: true, c02: true, migration: true, someOverrides: true}, "C02.converged"))
+	register(histProfile("C02", []string{"C02"}, 800, 40000, histOpts{maxNodes: 6, pCanary: 0.5, fancy: []float64{0, 0.3, 0.7}, faults: true, sane: true, c02: true, migration: true, someOverrides: true, neverReady: true}, "C02.converged"))
 }
 
 // ---------------------------------------------------------------------------------------
@@ -499,6 +509,8 @@ func genC18(r *rand.Rand, tier string, idx int) *World {
 		}
 		if chance(r, 0.12) {
 			sd.Ref = ""
+		} else if chance(r, 0.2) {
+			sd.Ref = "bar" // another ExtendedDaemonSet: the settings of a namespace compete whatever they reference
 		}
 		switch r.IntN(5) {
 		case 0:
@@ -663,6 +675,9 @@ func bodyC19(s *Sim) {
 			case "canary-pause":
 				if e.Status.State != edsv1.ExtendedDaemonSetStatusStateCanaryPaused {
 					s.Violate("C19", "obeys", "sequence-pause", "command %d of %s: after canary-pause the state is %q, expected Canary Paused", i+1, cmd, e.Status.State)
+				}
+				if r := s.Store.GetERS(def.NS, canary); r != nil && !ersCondTrue(&r.Status, edsv1.ConditionTypeCanaryPaused) {
+					s.Violate("C19", "obeys", "sequence-pause-replicaset", "command %d of %s: after canary-pause and three fair rounds the canary replica set %s does not report Canary-Paused", i+1, cmd, canary)
 				}
 			case "canary-unpause":
 				if e.Status.State != edsv1.ExtendedDaemonSetStatusStateCanary {
